@@ -1,37 +1,60 @@
 #!/usr/bin/env python3
-"""Run each seeded change under /verif/seeded against the check of its property (and optionally all checks);
-writes /verif/seeded/MATRIX.json and updates each meta.json's detected_by."""
+"""Run each seeded change under /verif/seeded against the quick check of its property, on a scratch worktree of
+/repo with the change applied (VT_REPO / VT_OUT overrides of vt.world / vt.run; /repo itself is not touched).
+Writes /verif/seeded/MATRIX.json and updates each meta.json's detected_by.
+usage: scripts/seed_matrix.py [-j N] [Cxx | Cxx/name ...]"""
+import concurrent.futures as cf
 import glob
+import hashlib
 import json
 import os
+import shutil
 import subprocess
 import sys
 
-os.chdir("/verif")
-only = sys.argv[1:] 
-rows = []
-for meta_path in sorted(glob.glob("/verif/seeded/C*/*/meta.json")):
+args = sys.argv[1:]
+jobs = 1
+if args[:1] == ["-j"]:
+    jobs = int(args[1]); args = args[2:]
+
+
+def wanted(pid, name):
+    return not args or pid in args or f"{pid}/{name}" in args
+
+
+def run(meta_path):
     d = os.path.dirname(meta_path)
     meta = json.load(open(meta_path))
-    pid = meta["property"]
-    if only and pid not in only:
-        continue
-    assert subprocess.run(["git", "-C", "/repo", "status", "--porcelain"], capture_output=True, text=True).stdout.strip() == "", "repo dirty"
-    ap = subprocess.run(["git", "-C", "/repo", "apply", os.path.join(d, "patch.diff")], capture_output=True, text=True)
-    if ap.returncode != 0:
-        rows.append({"seed": f"{pid}/{meta['name']}", "applies": False, "note": ap.stderr[:200]})
-        print(rows[-1]); continue
+    pid, name = meta["property"], meta["name"]
+    tag = hashlib.md5(d.encode()).hexdigest()[:8]
+    wt, out = f"/tmp/vtwt_{tag}", f"/tmp/vtout_{tag}"
+    subprocess.run(["git", "-C", "/repo", "worktree", "add", "-q", wt, "HEAD"], check=True)
     try:
-        p = subprocess.run(["./check", pid, "quick"], capture_output=True, text=True, timeout=3000)
+        ap = subprocess.run(["git", "-C", wt, "apply", os.path.join(d, "patch.diff")], capture_output=True, text=True)
+        if ap.returncode != 0:
+            return {"seed": f"{pid}/{name}", "applies": False, "note": ap.stderr[:200]}
+        env = dict(os.environ, VT_REPO=wt, VT_OUT=out)
+        p = subprocess.run(["/verif/check", pid, "quick"], capture_output=True, text=True, timeout=3000, env=env)
         sigs = [l.split("signature:")[1].strip() for l in p.stdout.splitlines() if "signature:" in l]
-        row = {"seed": f"{pid}/{meta['name']}", "applies": True, "check": pid, "exit": p.returncode, "signatures": sigs[:4]}
+        row = {"seed": f"{pid}/{name}", "applies": True, "check": pid, "exit": p.returncode, "signatures": sigs[:4]}
+        meta["detected_by"] = {"check": pid, "tier": "quick", "exit": row["exit"], "signatures": row["signatures"]}
+        json.dump(meta, open(meta_path, "w"), indent=1)
+        return row
     finally:
-        subprocess.run(["git", "-C", "/repo", "checkout", "--", "."], check=True)
-    rows.append(row)
-    meta["detected_by"] = {"check": pid, "tier": "quick", "exit": row["exit"], "signatures": row["signatures"]}
-    json.dump(meta, open(meta_path, "w"), indent=1)
-    print(row, flush=True)
+        subprocess.run(["git", "-C", "/repo", "worktree", "remove", "--force", wt])
+        shutil.rmtree(out, ignore_errors=True)
+
+
+metas = [m for m in sorted(glob.glob("/verif/seeded/C*/*/meta.json")) if wanted(*m.split("/")[-3:-1])]
+rows = []
+with cf.ThreadPoolExecutor(jobs) as ex:
+    for row in ex.map(run, metas):
+        print(row, flush=True)
+        rows.append(row)
 old = []
-if only and os.path.exists("/verif/seeded/MATRIX.json"):
-    old = [r for r in json.load(open("/verif/seeded/MATRIX.json")) if r["seed"].split("/")[0] not in only]
+if os.path.exists("/verif/seeded/MATRIX.json"):
+    done = {r["seed"] for r in rows}
+    old = [r for r in json.load(open("/verif/seeded/MATRIX.json")) if r["seed"] not in done]
 json.dump(sorted(old + rows, key=lambda r: r["seed"]), open("/verif/seeded/MATRIX.json", "w"), indent=1)
+missed = [r["seed"] for r in rows if r.get("exit") != 1]
+print(f"{len(rows)} seeds, not detected: {missed}")
